@@ -8,7 +8,8 @@
      is_reserved kw w        w is states / final / initial or a keyword of the format
      is_decl kw l, is_trans kw l   the line is a declaration line / a transition line
      line_ok sre lre kw l    the per-line checks of the parser; decls / transs = the declarations / transitions of a text
-     kw_dfa, kw_nfa, kw_pda, kw_tm  the keyword sets (parse_dfa falls back to the keywords of all four formats)
+     kw_dfa, kw_nfa, kw_pda, kw_tm  the keyword sets (kw_dfa = input_symbols: parse_dfa passes dfa_keywords());
+                             kw_all = the union of the keywords of the four formats
      aut_equiv               equality of parsed automaton records up to the order of a_trans / a_items
      tdfa_equiv, tnfa_equiv, tpda_equiv, ttm_equiv   field-wise equality as sets (DFA / TM delta: equal lookup;
                              NFA delta: the same transition relation tn_step)
@@ -112,8 +113,10 @@ Theorem C17_incomplete_transition_rejected : forall sre lre kw text l,
   In l text -> is_trans kw l = true -> length l <= 2 -> parse_automaton sre lre kw text = None.
 Proof. exact incomplete_transition_rejected. Qed.
 
+(* the line must be a transition line in all four formats (kw_all); kw_dfa would not do: `stack_symbols X` is a
+   transition line for parse_dfa but a declaration for parse_pda, witness C17_incomplete_transition_other_keyword *)
 Theorem C17_incomplete_transition_rejected_all : forall text l,
-  In l text -> is_trans kw_dfa l = true -> length l <= 2 ->
+  In l text -> is_trans kw_all l = true -> length l <= 2 ->
   (forall sre, parse_dfa_with sre text = None) /\ parse_nfa text = None /\ parse_pda text = None /\ parse_tm text = None.
 Proof. exact incomplete_transition_rejected_all. Qed.
 
@@ -308,6 +311,14 @@ Module C17_witness.
      | _, _ => false
      end) = true.
   Proof. exact ParserExamples.tm_line_order_matters. Qed.
+
+  (* a two-word line starting with a keyword of another format: rejected as an incomplete transition by parse_dfa
+     and parse_nfa, but a declaration for parse_pda *)
+  Theorem C17_incomplete_transition_other_keyword :
+    let text := [[tok "initial"; tok "p"]; [tok "stack_symbols"; tok "X"]] in
+    is_trans kw_dfa [tok "stack_symbols"; tok "X"] = true /\ parse_dfa text = None /\ parse_nfa text = None /\
+    parse_pda text <> None.
+  Proof. exact ParserExamples.incomplete_transition_other_keyword_not_rejected_all. Qed.
 End C17_witness.
 
 Print Assumptions C17_parse_dfa_wf.
@@ -365,3 +376,4 @@ Print Assumptions C17_parse_nfa_line_order.
 Print Assumptions C17_parse_pda_line_order.
 Print Assumptions C17_parse_tm_line_order.
 Print Assumptions C17_witness.C17_tm_line_order_matters.
+Print Assumptions C17_witness.C17_incomplete_transition_other_keyword.
